@@ -90,8 +90,9 @@ type extractor struct {
 
 // root of the tracked object a value was derived from
 type root struct {
-	name string
-	item bool // derived from the item received from the ranged-over channel
+	name  string
+	item  bool // derived from the item received from the ranged-over channel
+	param bool // a parameter of a callee bound to the variable: assigning the parameter itself is local
 }
 
 type walkCtx struct {
@@ -269,6 +270,9 @@ func (c *walkCtx) recordWrite(lhs ast.Expr, pos token.Pos, form0 string) {
 	}
 	if r.name == "" {
 		return
+	}
+	if r.param && accessForm(form) == "whole" {
+		return // assigning a parameter changes the callee's copy only
 	}
 	sync := "none"
 	switch {
@@ -566,6 +570,7 @@ func (e *walkCtx) bindParams(params *ast.FieldList, recvFL *ast.FieldList, recv 
 		if caller.itemDerived(arg) {
 			r.item = true
 		}
+		r.param = true
 		if r.name != "" || r.item {
 			e.tracked[po] = r
 		}
@@ -1641,15 +1646,18 @@ func extractGoroutines(repo string) ([]*xGo, error) {
 	// repository under test (module mode locates the main module from this directory)
 	build.Default.Dir = repo
 	var pkgs []*pkgData
-	for _, rel := range []string{"hashmap", "tree", "support", "io/utils"} {
+	for _, rel := range []string{"hashmap", "tree", "support", "io/utils", "cmd"} {
 		p, err := x.load(repo, rel, imp, &ctx)
 		if err != nil {
 			return nil, err
 		}
 		pkgs = append(pkgs, p)
 	}
+	// the four computations the property names, and - shown in the table but judged apart - the other
+	// pools driven by the thread option (cmd/edgetrees.go, cmd/roccurve.go)
 	inScope := func(rel string) bool {
-		return rel == "tree/algo.go" || strings.HasPrefix(rel, "support/") || rel == "io/utils/readtrees.go"
+		return rel == "tree/algo.go" || strings.HasPrefix(rel, "support/") || rel == "io/utils/readtrees.go" ||
+			rel == "cmd/edgetrees.go" || rel == "cmd/roccurve.go"
 	}
 	var gos []*xGo
 	for _, p := range pkgs {
@@ -1660,24 +1668,50 @@ func extractGoroutines(repo string) ([]*xGo, error) {
 				continue
 			}
 			for _, d := range f.Decls {
-				fd, ok := d.(*ast.FuncDecl)
-				if !ok || fd.Body == nil {
-					continue
-				}
-				ast.Inspect(fd.Body, func(n ast.Node) bool {
-					if gs, ok := n.(*ast.GoStmt); ok {
-						if lit, ok := gs.Call.Fun.(*ast.FuncLit); ok {
-							gos = append(gos, x.analyse(p, fname, fd, gs, lit))
-						} else {
-							gos = append(gos, &xGo{File: fname, Fn: fd.Name.Name, Line: x.fset.Position(gs.Pos()).Line,
-								Exits:      []xExit{{Kind: "rangeEnd", Line: x.fset.Position(gs.End()).Line, Done: false}},
-								Unfollowed: []string{"go " + exprStr(gs.Call.Fun) + " (not a function literal)"}})
+				// functions, and the function literals bound in package-level variables (the RunE of a
+				// cobra command): each becomes one "enclosing function" named after the variable
+				var fds []*ast.FuncDecl
+				switch v := d.(type) {
+				case *ast.FuncDecl:
+					if v.Body != nil {
+						fds = append(fds, v)
+					}
+				case *ast.GenDecl:
+					for _, sp := range v.Specs {
+						vs, ok := sp.(*ast.ValueSpec)
+						if !ok || len(vs.Names) == 0 {
+							continue
+						}
+						for _, val := range vs.Values {
+							ast.Inspect(val, func(n ast.Node) bool {
+								if fl, ok := n.(*ast.FuncLit); ok {
+									if containsGo(fl.Body) {
+										fds = append(fds, &ast.FuncDecl{Name: ast.NewIdent(vs.Names[0].Name), Type: fl.Type, Body: fl.Body})
+									}
+									return false
+								}
+								return true
+							})
 						}
 					}
-					return true
-				})
-				if containsGo(fd.Body) {
-					gos = append(gos, x.mainRegions(p, fname, fd)...)
+				}
+				for _, fd := range fds {
+					fd := fd
+					ast.Inspect(fd.Body, func(n ast.Node) bool {
+						if gs, ok := n.(*ast.GoStmt); ok {
+							if lit, ok := gs.Call.Fun.(*ast.FuncLit); ok {
+								gos = append(gos, x.analyse(p, fname, fd, gs, lit))
+							} else {
+								gos = append(gos, &xGo{File: fname, Fn: fd.Name.Name, Line: x.fset.Position(gs.Pos()).Line,
+									Exits:      []xExit{{Kind: "rangeEnd", Line: x.fset.Position(gs.End()).Line, Done: false}},
+									Unfollowed: []string{"go " + exprStr(gs.Call.Fun) + " (not a function literal)"}})
+							}
+						}
+						return true
+					})
+					if containsGo(fd.Body) {
+						gos = append(gos, x.mainRegions(p, fname, fd)...)
+					}
 				}
 			}
 		}
@@ -1789,7 +1823,18 @@ func emitLean(gos []*xGo, out string) error {
 		}
 		b.WriteString("] }\n\n")
 	}
-	b.WriteString("def goroutines : List Goroutine := [" + strings.Join(names, ", ") + "]\n\n")
+	var inNames, otherNames []string
+	for i, g := range gos {
+		if strings.HasPrefix(g.File, "cmd/") {
+			otherNames = append(otherNames, names[i])
+		} else {
+			inNames = append(inNames, names[i])
+		}
+	}
+	b.WriteString("/-- the goroutines of the computations the property names (tree/algo.go, support/, io/utils/readtrees.go) -/\n")
+	b.WriteString("def goroutines : List Goroutine := [" + strings.Join(inNames, ", ") + "]\n\n")
+	b.WriteString("/-- the other pools driven by the thread option (cmd/edgetrees.go, cmd/roccurve.go): outside the four computations\n    the property names, shown here and judged apart -/\n")
+	b.WriteString("def otherGoroutines : List Goroutine := [" + strings.Join(otherNames, ", ") + "]\n\n")
 	b.WriteString("/-- exit paths of pool workers that leave without `wg.Done()` -/\n")
 	b.WriteString("def exitsWithoutDone : List Exit := goroutines.flatMap Goroutine.exitsWithoutDone\n\n")
 	b.WriteString("/-- writes of goroutines to captured variables with no synchronisation -/\n")
